@@ -19,7 +19,7 @@ import (
 // Domain keyjson (property C05, the key text): the bytes that (*SearchCache).generateCacheKey hashes, against
 // Wtf.KeyJson.keyText (lean/WtfModel/Model/KeyJson.lean).
 //
-//	keytext <query hex> F=<bits>:<text hex>,... <Field=value ...>     request at the level of cache.SearchOptions
+//	keytext <query hex> F=<bits>:<text hex>,... <Field=value ...>     request at the level of cache.SearchOptions; F always lists +0
 //	                                                                   (tokens as in dom_cachelayer.go; map entries in any order)
 //	coerce <hex>                                                       pass 1 of the string encoder alone
 //
@@ -111,6 +111,7 @@ func keyjsonLine(r *Rng, q string, o cache.SearchOptions) string {
 	toks, floats := keyjsonOptTokens(r, o)
 	seen := map[uint64]bool{}
 	var fs []string
+	floats = append(floats, 0) // a float field without omitempty prints its zero
 	for _, x := range floats {
 		b := math.Float64bits(x)
 		if seen[b] {
@@ -121,10 +122,7 @@ func keyjsonLine(r *Rng, q string, o cache.SearchOptions) string {
 			fs = append(fs, strconv.FormatUint(b, 16)+":"+Hx(t))
 		}
 	}
-	f := "F=-"
-	if len(fs) > 0 {
-		f = "F=" + strings.Join(fs, ",")
-	}
+	f := "F=" + strings.Join(fs, ",")
 	return strings.Join(append([]string{"keytext", Hx(q), f}, toks...), " ")
 }
 
